@@ -396,7 +396,16 @@ def _F29():
     return not bool(((v - want).abs() <= 1e-12 * want).all())
 
 
-REPLAYS = {'F24': _F24, 'F25': _F25, 'F26': _F26, 'F27': _F27, 'F28': _F28, 'F29': _F29, 'F1-linear': _F1('lin'), 'F1-quadratic': _F1('quad'), 'F1-cubic': _F1('cubic'), 'F2': _F2, 'F3': _F3, 'F4': _F4,
+def _F30():
+    """linear spline inverse in float32 at the upper end of the interval with a last bin of mass ~1e-8: NaN / inf before c321ed1"""
+    from nflows.transforms.splines import linear
+    p = torch.tensor([[0.0, 1.0, -0.5, -18.5]])
+    x, ld = linear.linear_spline(torch.tensor([1.0]), p, inverse=True)
+    y, ldf = linear.linear_spline(torch.tensor([1.0]), p, inverse=False)
+    return not (torch.isfinite(x).all() and torch.isfinite(ld).all() and abs(x.item() - 1.0) < 1e-6 and abs(ld.item() + ldf.item()) < 1e-4)
+
+
+REPLAYS = {'F24': _F24, 'F25': _F25, 'F26': _F26, 'F27': _F27, 'F28': _F28, 'F29': _F29, 'F30': _F30, 'F1-linear': _F1('lin'), 'F1-quadratic': _F1('quad'), 'F1-cubic': _F1('cubic'), 'F2': _F2, 'F3': _F3, 'F4': _F4,
            'F6': _F6, 'F9': _F9, 'F12': _F12, 'F13': _F13, 'F16': _F16, 'F17': _F17}
 
 
